@@ -11,6 +11,8 @@ for p in (home, repo):
         sys.path.insert(0, p)
 # this script's own directory must not shadow anything
 sys.path[:] = [p for p in sys.path if os.path.abspath(p or ".") != os.path.dirname(os.path.abspath(__file__))]
+if os.environ.get("VF_UMASK"):
+    os.umask(int(os.environ["VF_UMASK"], 8))     # the file-creation mask of the account / service unit the server runs under
 if os.environ.get("XANDIKOS_VERIF") == "1":
     from vf import agent
     agent.install_from_env()
